@@ -219,6 +219,8 @@ def check_case(rng, r, stats, tier):
                             res.append([fitgen.cell(v) for v in o.transform(Xp)[b].tolist()])
                     except Exception as e:
                         res.append(f"{type(e).__name__}: {e}"[:200])
+                if isinstance(res[0], str) and isinstance(res[1], str):
+                    res = [r.split(":")[0] for r in res]          # both refused: the same exception type is all that is asked
                 if res[0] != res[1]:
                     rows = [i for i, (x, y) in enumerate(zip(res[0], res[1])) if x != y][:5] if isinstance(res[0], list) and isinstance(res[1], list) else []
                     fails.append({"kind": "property", "what": "transform of a feature depends on another feature's unseen value "
